@@ -77,6 +77,12 @@ class FormulaParser(Parser):
                   | expression AMP expression
         """
         if p[2] == '&':
+            if isinstance(p[1], error.XLError):
+                p[0] = p[1]
+                return
+            if isinstance(p[3], error.XLError):
+                p[0] = p[3]
+                return
             # a blank operand contributes nothing
             left = '' if p[1] is None else p[1]
             right = '' if p[3] is None else p[3]
